@@ -21,6 +21,7 @@ C2S: seeded random programs from a larger grammar (nesting depth 3, longer block
 Binding demonstrated during development (scratch worktree, see notes/futures.md).
 """
 import random
+import time
 
 from harness import framework, futures_gen
 from harness.futures_driver import CoroReal, emit_program
@@ -187,7 +188,8 @@ def _trace_sig(t, bad, l):
 
 MC_THOROUGH = {"MaxBody": 2, "TopOps": '{"eff", "await1", "list", "moment", "sub2", "ret", "raise", "rdctx", "setctx"}'}
 
-GEN_QUICK = {"TopOps": '{"eff", "await1", "ret"}', "MaxTop": 2, "MaxBody": 1}
+GEN_QUICK = {"TopOps": '{"eff", "await1", "ret"}', "MaxTop": 2, "MaxBody": 1,
+             "HOps": '{"none", "eff", "await2", "raise"}', "FOps": '{"none", "eff", "await2", "ret"}'}
 GEN_THOROUGH = {"TopOps": '{"eff", "await1", "await2", "list", "moment", "sub2", "ret", "raise", "setctx"}',
                 "MaxTop": 2, "MaxBody": 2, "HOps": '{"none", "eff", "await2", "ret", "raise"}',
                 "FOps": '{"none", "eff", "await2", "ret", "raise"}', "Outcomes": '{"ok", "exc", "cancel"}'}
@@ -195,13 +197,17 @@ GEN_THOROUGH = {"TopOps": '{"eff", "await1", "await2", "list", "moment", "sub2",
 
 def run(ctx):
     global SUBS
+    t0 = time.time()
     # 1. model checking of the semantics
     ctx.mc("futures", "CoroLang", "MC_CoroLang.cfg", overrides=ctx.pick({}, MC_THOROUGH),
            required_actions=["Start", "Complete"], timeout=ctx.pick(600, 1800))
+    ctx._phase("mc", t0); t0 = time.time()
     # 2. spec -> code: every (program, schedule)
     paths = futures_gen.gen_paths(ctx, "futures", "Gen_CoroLang", "Gen_CoroLang.cfg",
                                   overrides=ctx.pick(GEN_QUICK, GEN_THOROUGH), timeout=ctx.pick(600, 1800))
+    ctx._phase("gen", t0); t0 = time.time()
     ctx.replay(paths, replayer, nontrivial=lambda e, p: len(p) >= 2)
+    ctx._phase("replay", t0); t0 = time.time()
     # nested try statements (flat programs: one nested try)
     nested = futures_gen.gen_paths(ctx, "futures", "Gen_CoroLang", "Gen_CoroLang.cfg",
                                    overrides={"TopOps": "{}", "MaxTop": 1, "MaxBody": 1, "Nest": "TRUE",
@@ -216,17 +222,19 @@ def run(ctx):
     # cancellation of awaited futures (separate so that its findings are matched precisely)
     if ctx.quick:
         canc = futures_gen.gen_paths(ctx, "futures", "Gen_CoroLang", "Gen_CoroLang.cfg",
-                                     overrides={"TopOps": '{"eff"}', "MaxTop": 2, "MaxBody": 1,
+                                     overrides={"TopOps": '{"eff"}', "MaxTop": 1, "MaxBody": 1,
                                                 "BodyOps": '{"await1", "list", "sub2"}',
                                                 "Outcomes": '{"ok", "cancel"}'},
                                      timeout=600)
         ctx.replay(canc, replayer, label="s2c-cancel")
     ctx.cov["exhaustive"] = True
+    ctx._phase("nested+cancel", t0); t0 = time.time()
     SUBS = paths[0][0]["cfg"]["subs"]
     # 3. code -> spec
-    n = ctx.pick(400, 10000)
-    jobs = [(i + 1, ctx.seed * 1000003 + i, SUBS, i % 4 == 0) for i in range(n)]
+    n = ctx.pick(300, 10000)
+    jobs = [(i + 1, ctx.seed * 1000003 + i, SUBS, i % 8 == 0) for i in range(n)]
     traces = framework.pool_map(random_trace, jobs)
+    ctx._phase("record", t0); t0 = time.time()
     leaks = [t for t in traces if t["caller_ctx"] != 1]
     for t in leaks[:20]:
         sig = {"kind": "c2s", "act": "start", "caller_ctx_leak": True}
@@ -234,6 +242,7 @@ def run(ctx):
         sig["forms"] = "differ" if any(e["obs"]["dec"] != e["obs"]["nat"] for e in t["ev"]) else "dec+nat"
         ctx.violation(sig, {"trace": t, "caller_ctx": t["caller_ctx"]})
     ctx.validate("futures", "Trace_CoroLang", "Trace_CoroLang.cfg", traces, sig_fn=_trace_sig)
+    ctx._phase("validate", t0)
     ctx.cov["rule"] = ("paths: every program of the bounded grammar (top-level atoms and try/except/finally statements "
                        "with awaits, lists, dicts, moment, sub-coroutines, return, raise, context variable in every "
                        "clause; one level of nesting) x every interleaving of the call and the completions "
